@@ -7,7 +7,8 @@ from migen.genlib.record import Record
 
 FMT = ("EventManager instances: (trigger vector, bus.adr, bus.we, bus.dat_w, bus.re); SharedIRQ: (trigger vector, "
        "bus.adr, bus.we, bus.dat_w) per manager; clients: (cycle, stimulus..., bus.adr, bus.we, bus.dat_w, bus.re) with "
-       "stimulus = Timer: none, UART: sink.valid, sink.data, source.ready, GPIOIn: pads")
+       "stimulus = Timer: none, UART: sink.valid, sink.data, source.ready, GPIOIn: pads (raw pads, before the "
+       "synchroniser); SoCCore+stub CPU: (trigger vector per peripheral, cpu wishbone adr, we, dat_w, stb, cycle)")
 
 N_STALE = "C15-multiword-pending-stale-words"     # not a finding: logged as a note (see probes)
 F_GPIO = "C15-gpio-change-back-to-back"           # open finding (known_findings.json)
@@ -16,7 +17,7 @@ F_GPIO = "C15-gpio-change-back-to-back"           # open finding (known_findings
 # ---------------------------------------------------------------------------------------------------------
 # clients
 
-def mk_timer(width, dw, ordering="big"):
+def mk_timer(width, dw, ordering="big", full=False, small=None):
     from litex.soc.cores.timer import Timer
     core = Timer(width=width)
 
@@ -36,10 +37,12 @@ def mk_timer(width, dw, ordering="big"):
             dat = rng.choice([0, 1, 2, 3, 5]) if low else (0 if rng.random() < 0.95 else 1)
         return (ids.index(id(sc)), 1, dat, 0)
 
+    if full:
+        return L.TimerInst("Timer(%d)" % width, core, dw, gen_bus, ordering, small=small)
     return L.ClientInst("Timer(%d)" % width, core, ["r"], dw, [], lambda rng, t: (), gen_bus, ordering)
 
 
-def mk_uart(txd, rxd, dw, rx_we=False, ordering="big"):
+def mk_uart(txd, rxd, dw, rx_we=False, ordering="big", full=False, small=False):
     from litex.soc.cores.uart import UART
     core = UART(phy=None, tx_fifo_depth=txd, rx_fifo_depth=rxd, rx_fifo_rx_we=rx_we)
 
@@ -59,11 +62,15 @@ def mk_uart(txd, rxd, dw, rx_we=False, ordering="big"):
             return (ids.index(id(core._rxtx)), 0, 0, 1)
         return None
 
+    if full:
+        return L.UartFullInst("UART(tx%d,rx%d%s)" % (txd, rxd, ",rx_we" if rx_we else ""), core, dw,
+                              [core.sink.valid, core.sink.data, core.source.ready], gen_stim, gen_bus, rx_we,
+                              txd, rxd, ordering, small=small)
     return L.UartInst("UART(tx%d,rx%d%s)" % (txd, rxd, ",rx_we" if rx_we else ""), core, dw,
                       [core.sink.valid, core.sink.data, core.source.ready], gen_stim, gen_bus, rx_we, ordering)
 
 
-def mk_gpio(npads, dw, tristate=False, ordering="big"):
+def mk_gpio(npads, dw, tristate=False, ordering="big", full=False, small=False, edge_ops=True):
     from litex.soc.cores.gpio import GPIOIn, GPIOTristate
     if tristate:
         pads = Record([("o", npads), ("oe", npads), ("i", npads)])
@@ -84,8 +91,44 @@ def mk_gpio(npads, dw, tristate=False, ordering="big"):
                 state["v"] ^= 1 << k
         return (state["v"],)
 
+    if full:
+        return L.GpioSyncInst("%s(%d pads,irq)" % ("GPIOTristate" if tristate else "GPIOIn", npads), core, npads, dw,
+                              [pin], gen_stim, ordering, pads_alphabet=range(1 << npads) if small else None,
+                              edge_ops=edge_ops)
     return L.GpioInst("%s(%d pads,irq)" % ("GPIOTristate" if tristate else "GPIOIn", npads), core, npads, dw,
                       [pin], gen_stim, ordering)
+
+
+def mk_timer_full(width, dw, ordering="big", small=None):
+    """Timer against the model that contains the counter (`open timer`)."""
+    return mk_timer(width, dw, ordering, full=True, small=small)
+
+
+def mk_uart_full(txd, rxd, dw, rx_we=False, ordering="big", small=False):
+    """UART against the model that contains the FIFO levels (`open uart`)."""
+    return mk_uart(txd, rxd, dw, rx_we, ordering, full=True, small=small)
+
+
+def mk_gpio_sync(npads, dw, tristate=False, ordering="big", small=False, edge_ops=True):
+    """GPIO against the model that contains the MultiReg synchroniser (`open gpiosync`)."""
+    return mk_gpio(npads, dw, tristate, ordering, full=True, small=small, edge_ops=edge_ops)
+
+
+def mk_soc(kinds_list, reqs, reserved=None, csr_dw=32, **kw):
+    """Real SoCCore + stub CPU; the interrupt numbers of the model come from the model's own `irqAlloc`."""
+    import logging
+    from leanproc import LeanDriver
+    logging.disable(logging.CRITICAL)
+    inst = L.SocIrqInst(kinds_list, reqs, reserved, csr_dw, **kw)
+    ld = LeanDriver("C15")
+    try:
+        ans = ld.call_batch([inst.alloc_request()])[0].split()
+    finally:
+        ld.quit()
+    if ans[0] != "ok":
+        raise RuntimeError("model refuses the interrupt requests %s that soc.py accepted" % inst.alloc_request())
+    inst.set_locs([int(x) for x in ans[1:]])
+    return inst
 
 
 # ---------------------------------------------------------------------------------------------------------
@@ -188,6 +231,34 @@ def jobs(tier):
         B(lambda: mk_uart(16, 16, 32))
         B(lambda: mk_gpio(33, 32), **big)
         B(lambda: mk_timer(16, 8, "little"))
+    # ---- the event PRODUCERS inside the model (session 2): counter / FIFO levels / MultiReg computed by the model
+    A(lambda: mk_timer_full(2, 8, small=(0, 2)))
+    A(lambda: mk_gpio_sync(1, 8, small=True, edge_ops=not quick))
+    A(lambda: mk_uart_full(2, 2, 8, small="rx"))
+    A(lambda: mk_uart_full(2, 2, 8, small="tx"))
+    B(lambda: mk_timer_full(8, 8))
+    B(lambda: mk_timer_full(32, 8, "little"))
+    B(lambda: mk_uart_full(2, 2, 8))
+    B(lambda: mk_uart_full(4, 3, 32, rx_we=True))
+    B(lambda: mk_gpio_sync(4, 8))
+    B(lambda: mk_gpio_sync(3, 32, tristate=True))
+    if not quick:
+        A(lambda: mk_timer_full(2, 8, "little", small=(0, 1, 3)))
+        A(lambda: mk_gpio_sync(1, 32, tristate=True, ordering="little", small=True))
+        A(lambda: mk_uart_full(3, 2, 8, small="tx"))
+        A(lambda: mk_uart_full(2, 3, 8, rx_we=True, small="rx"))
+        B(lambda: mk_timer_full(32, 32))
+        B(lambda: mk_uart_full(16, 16, 32))
+        B(lambda: mk_uart_full(2, 5, 8, rx_we=True, ordering="little"))
+        B(lambda: mk_gpio_sync(12, 8))
+        B(lambda: mk_gpio_sync(33, 32), **big)
+    # ---- SoC level: real SoCCore + stub CPU, `soc.irq.add` numbering, `cpu.interrupt[loc] = ev.irq`
+    soc = dict(cycles=700 if quick else 6000)        # whole-SoC netlist: ~150 steps/s
+    B(lambda: mk_soc([list("pr"), list("lfp"), list("f")], [5, None, 31], {"noirq": 0, "x": 2}), **soc)
+    B(lambda: mk_soc([list("l"), list("rp")], [None, None], {}, csr_dw=8), **soc)
+    if not quick:
+        B(lambda: mk_soc([rand_kinds(21, 8), list("p"), list("fl"), list("r")], [None, 0, None, 3], {"a": 1}, csr_dw=8), **soc)
+        B(lambda: mk_soc([list("p"), list("l"), list("f")], [2, 1, 0], {}, n_irqs=3), **soc)
     return J
 
 
@@ -245,6 +316,88 @@ def run_corpus(ctx):
     return dis
 
 
+def real_irq_numbers(n_irqs, reserved, reqs):
+    """The real `SoCIRQHandler` as `SoC.add_cpu` and `soc.irq.add` use it -> list of numbers, or None on SoCError."""
+    import logging
+    from litex.soc.integration import soc as S
+    logging.disable(logging.CRITICAL)
+    try:
+        h = S.SoCIRQHandler(n_irqs=n_irqs)
+        h.enable()
+        for i, r in enumerate(reserved):
+            h.add("cpu%d" % i, r)
+        for j, r in enumerate(reqs):
+            if r is None:
+                h.add("p%d" % j)
+            else:
+                h.add("p%d" % j, r)
+        return [h.locs["p%d" % j] for j in range(len(reqs))]
+    except S.SoCError:
+        return None
+
+
+def expected_or_none(n_irqs, reserved, reqs):
+    """Documented behaviour, independent of /repo and of the model: a requested number must be free and < n_irqs;
+    no number = the lowest free one; anything else is refused."""
+    used = set(reserved)
+    out = []
+    for r in reqs:
+        if r is None:
+            free = [x for x in range(n_irqs) if x not in used]
+            if not free:
+                return None
+            r = free[0]
+        elif r in used or r >= n_irqs or r < 0:
+            return None
+        used.add(r)
+        out.append(r)
+    return out
+
+
+def irq_numbers(ctx):
+    """Python-level correspondence of the interrupt numbering: real `SoCIRQHandler` vs the model's `irqAlloc`,
+    exhaustive for n_irqs <= 3 (every set of CPU lines, every request sequence up to length 3 over {any, 0..n}),
+    seeded random for n_irqs = 32."""
+    cases = []
+    for n in (1, 2, 3):
+        sets = [c for k in range(0, 3) for c in itertools.combinations(range(n), k)]
+        alpha = [None] + list(range(n + 1))
+        for res in sets:
+            for ln in range(0, 4):
+                for reqs in itertools.product(alpha, repeat=ln):
+                    cases.append((n, list(res), list(reqs)))
+    nex = len(cases)
+    rng = ctx.rng
+    for _ in range(150 if ctx.tier == "quick" else 2000):
+        n = rng.choice([32, 32, 8, 5])
+        res = rng.sample(range(n), rng.randrange(0, min(4, n)))
+        reqs = [None if rng.random() < 0.5 else rng.randrange(0, n + 2) for _ in range(rng.randrange(1, 8))]
+        cases.append((n, res, reqs))
+    lines = ["irqalloc %d %s / %s" % (n, " ".join(map(str, res)), " ".join("a" if r is None else str(r) for r in reqs))
+             for n, res, reqs in cases]
+    answers = ctx.lean.call_batch(lines)
+    dis, ok = [], 0
+    ctx.irq_failures = []
+    for (n, res, reqs), ans in zip(cases, answers):
+        real = real_irq_numbers(n, res, reqs)
+        a = ans.split()
+        model = [int(x) for x in a[1:]] if a and a[0] == "ok" else None
+        if real is not None:
+            ok += 1
+        if real != expected_or_none(n, res, reqs):
+            ctx.irq_failures.append({"n_irqs": n, "cpu_lines": res, "requests": reqs, "real": real,
+                                     "documented": expected_or_none(n, res, reqs)})
+        if real != model and len(dis) < 3:
+            d = Disagreement(None, [], 0, real, model,
+                             kind="irq numbering: n_irqs=%d cpu lines %s requests %s: soc.py gives %s, model %s"
+                                  % (n, res, reqs, real, model))
+            d.inst_name = "SoCIRQHandler numbering"
+            dis.append(d)
+    ctx.cov.add_cases("SoCIRQHandler numbering (n_irqs<=3 exhaustive: %d, random: %d)" % (nex, len(cases) - nex),
+                      len(cases), ok, False)
+    return dis
+
+
 class InstanceTimeout(Exception):
     pass
 
@@ -274,8 +427,15 @@ def correspond(ctx):
         "software writes every word of `pending` before the committing word (generated accessors do)",
         "Timer/UART client instances: the trigger waveform is sampled from the real trigger logic (value == 0, FIFO "
         "valid/ready); pending, clear, irq and read values are the model's own prediction.  GPIO instances: the model "
-        "computes the triggers itself from the synchronised pads and the sampled mode/edge registers"]
+        "computes the triggers itself from the synchronised pads and the sampled mode/edge registers",
+        "producer instances ('counter modelled', 'fifos modelled', 'raw pads'): the model computes the triggers itself "
+        "(down counter; FIFO levels from sink.valid/source.ready/rxtx accesses, data abstracted, depths >= 2; MultiReg "
+        "from the raw pads); the client configuration registers (_en/_load/_reload, _mode/_edge) are model inputs fed "
+        "from the real storage registers every cycle",
+        "SoC instances: a stub CPU (interrupt vector + wishbone master, no core) in a real SoCCore; every manager's "
+        "model gets the access seen at its own CSR bank port; interrupt numbers come from the model's irqAlloc"]
     dis = run_corpus(ctx)
+    dis += irq_numbers(ctx)
     ctx.jobs = jobs(ctx.tier)
     limit = 600 if ctx.tier == "quick" else 3000      # against hangs, far above the normal time
     d2, bad = run_jobs(ctx, [timed(j, limit) for j in ctx.jobs])
@@ -295,6 +455,11 @@ def search(ctx, disagreements, proof_info):
     """Failing-input search: shortest first.  (1) every disagreement / monitor trace is replayed on the real code
     with the lost-event monitor armed (plus two idle cycles) and shrunk; (2) random search on every instance."""
     from explore import shrink
+    if getattr(ctx, "irq_failures", None):
+        f = ctx.irq_failures[0]
+        return {"instance": "SoCIRQHandler numbering", "input": f,
+                "monitor": "interrupt numbers differ from the documented numbering (requested number free and < n_irqs, "
+                           "else lowest free number)"}
     all_jobs = getattr(ctx, "jobs", None) or jobs(ctx.tier)
     cands = sorted([d for d in disagreements if getattr(d, "job", None) is not None], key=lambda d: len(d.trace))
     cands = [d for d in cands if not d.kind.startswith("monitor:")][:12] + [d for d in cands if d.kind.startswith("monitor:")]
